@@ -12,7 +12,8 @@ EXPLANATION = (
     "updated records; (e) verify shortens SRV/address expiry through set_expire_sooner, arms the new expiry and "
     "schedules the second query round.  Decides that removals are produced, forwarded and armed; not the time of "
     "delivery over histories."
-    " (f) Only an expired PTR or an emptied SRV vector puts an instance into the removal set, and the eviction results reach the notifiers whole (no truncating adapter).")
+    " (f) Only an expired PTR or an emptied SRV vector puts an instance into the removal set, and the eviction results reach the notifiers whole (no truncating adapter)."
+    " (g) The host names evict_expired_addr reports are the expired records' own names. (h) Expiry times only move forward outside reset_ttl.")
 UNDECIDED = ["time of delivery of ServiceRemoved relative to the TTL", "'not before' (no spurious removal) over histories",
              "duplicates across histories"]
 
@@ -342,6 +343,9 @@ def clause_f(ctx, P):
 
 
 def run(ctx, P):
+    from . import r2
+    r2.evicted_addr_names_are_record_names(ctx, P, "C05g")
+    r2.expiry_only_brought_forward(ctx, P, "C05h")
     clause_f(ctx, P)
     clause_ab(ctx, P)
     clause_c(ctx, P)
